@@ -481,7 +481,36 @@ def ops_cases(draw):
     order = G.permutation(draw, list(range(n))) if how.startswith("ctor") and draw(G.ints(0, 1)) else list(range(n))
     twins = {"idx": tw, "how": how, "order": order, "by": G.pick(draw, ["name", "identity", "ref", "data"]),
              "sel": [bool(draw(G.ints(0, 1))) for _ in range(n)]}
-    return {"a": a, "b": b, "pred": draw(preds(a["subs"])), "extra": extra, "more": more, "twins": twins}
+    return {"a": a, "b": b, "pred": draw(preds(a["subs"])), "extra": extra, "more": more, "twins": twins,
+            "extra_forms": [G.pick(draw, ITER_FORMS[2:] + ITER_FORMS[:2]) for _ in range(2)]}
+
+
+# every form of "an iterable of Reaction instances" the right operand of + / += is accepted in (re-iterable
+# containers and single-pass iterators)
+ITER_FORMS = ["list", "tuple", "genexpr", "iter", "filter", "map", "dict_values", "chain", "deque"]
+
+
+def as_iterable(form, objs):
+    objs = list(objs)
+    if form == "tuple":
+        return tuple(objs)
+    if form == "genexpr":
+        return (o for o in objs)
+    if form == "iter":
+        return iter(objs)
+    if form == "filter":
+        return filter(lambda r: True, objs)
+    if form == "map":
+        return map(lambda r: r, objs)
+    if form == "dict_values":
+        return {i: o for i, o in enumerate(objs)}.values()
+    if form == "chain":
+        from itertools import chain
+        return chain(objs[:1], objs[1:])
+    if form == "deque":
+        from collections import deque
+        return deque(objs)
+    return objs
 
 
 def _build(sysd):
@@ -651,6 +680,13 @@ def check_ops(case, ctx):
     D2 = A + tuple(eo)
     if not check_members(ctx, D2, a["subs"], ao + eo, "add_reactions:tuple"):
         return
+    f_add, f_iadd = case.get("extra_forms") or ["list", "list"]
+    ctx.label("add_form=" + f_add, "iadd_form=" + f_iadd)
+    D3 = A + as_iterable(f_add, eo)
+    if not check_members(ctx, D3, a["subs"], ao + eo, "add_reactions:iterable"):
+        return
+    if not check_members(ctx, A, a["subs"], ao, "add_reactions:left_operand_changed"):
+        return
     # system += system ; += reactions
     A2, ao2 = _build(a)
     same = A2
@@ -662,7 +698,7 @@ def check_ops(case, ctx):
         return
     if not check_members(ctx, B, b["subs"], bo, "iadd_system:right_operand_changed"):
         return
-    A2 += eo
+    A2 += as_iterable(f_iadd, eo)
     if not check_members(ctx, A2, merged_keys(a["subs"], b["subs"]), ao2 + bo + eo, "iadd_reactions"):
         return
     # concatenate: the pair, then all 3-5 operands (fresh objects: the first system is consumed)
@@ -1059,17 +1095,19 @@ def apply_op(state, op, ctx):
             return
         rids = _register(state, descs)
         new = [state["reg"][i] for i in rids]
-        ctx.label("op:" + kind)
+        # op[3]: index into ITER_FORMS (older histories: list for +=, list / tuple for +)
+        form = ITER_FORMS[op[3] % len(ITER_FORMS)] if len(op) > 3 else ("list" if kind == "iadd_rxns" or op[1] % 2 == 0 else "tuple")
+        ctx.label("op:" + kind, "op:%s_form=%s" % (kind, form))
         state["after_add"] = True
         if kind == "iadd_rxns":
             before = a["obj"]
-            a["obj"] += new
+            a["obj"] += as_iterable(form, new)
             if a["obj"] is not before:
                 ctx.fail("iadd_reactions:not_in_place")
             a["rids"] = a["rids"] + rids
             _verify(state, a, ctx, "iadd_reactions")
         else:
-            res = a["obj"] + (new if op[1] % 2 == 0 else tuple(new))
+            res = a["obj"] + as_iterable(form, new)
             if not _verify(state, a, ctx, "add_reactions:operand_changed", structure=False):
                 return
             e = _entry(state, res, a["subs"], a["rids"] + rids)
@@ -1244,13 +1282,13 @@ def machine(ctx):
         def iadd_rxns(self, i, data):
             keys = self._keys(i)
             if keys:
-                self._do(["iadd_rxns", i, data.draw(G.reactions_over(keys, 3))])
+                self._do(["iadd_rxns", i, data.draw(G.reactions_over(keys, 3)), data.draw(G.ints(0, len(ITER_FORMS) - 1))])
 
         @rule(i=G.ints(0, 7), data=st.data())
         def add_rxns(self, i, data):
             keys = self._keys(i)
             if keys:
-                self._do(["add_rxns", i, data.draw(G.reactions_over(keys, 2))])
+                self._do(["add_rxns", i, data.draw(G.reactions_over(keys, 2)), data.draw(G.ints(0, len(ITER_FORMS) - 1))])
 
         @rule(i=G.ints(0, 7), j=G.ints(0, 7))
         def iadd_sys(self, i, j):
@@ -1317,7 +1355,8 @@ SUBCHECKS = [
              rule="substance order for None/set (sorted) and list/tuple/str/OrderedDict (as given); an equal reaction "
                   "twice or a reaction key missing from the substances raises ValueError"),
     SubCheck("ops", check_ops, strategy=ops_cases(), quick=500, thorough=40000,
-             rule="subset(pred), system+system, system+reactions, +=, concatenate on a generated pair of overlapping systems; "
+             rule="subset(pred), system+system, system+reactions, +=, concatenate on a generated pair of overlapping systems "
+                  "(reactions as list, tuple, generator expression, iter(), filter, map, dict values, chain, deque); "
                   "concatenate also over 3-5 systems whose later operands repeat stoichiometries of any earlier operand "
                   "(mostly of another later one), once or twice; subset on a system that holds 1-3 reactions twice as distinct "
                   "objects that compare equal (other name / ref / data; made by +, += or the constructor with checks=() / "
